@@ -138,7 +138,7 @@ func (c05) Run(c *Ctx, i int) CaseResult {
 	if c.Tier == "thorough" || c.Tier == "search" {
 		nsched = 33
 	}
-	released, traced := 0, 0
+	released, traced, inconclusive := 0, 0, 0
 	for k := 0; k < nsched; k++ {
 		policy := schedPolicies[k%len(schedPolicies)]
 		sc := NewSched(policy, c.Seed*977+int64(i)*131+int64(k))
@@ -177,8 +177,10 @@ func (c05) Run(c *Ctx, i int) CaseResult {
 			detail["schedule"] = sc.Trace
 			res.Fails = append(res.Fails, Failure{Channel: "L1.trace", Classifier: "unclassified", What: what + fmt.Sprintf(" (policy %s)", policy), Input: in, Observed: detail})
 			return res
-		} else if detail != nil {
+		} else if detail != nil && detail["inconclusive"] == nil {
 			traced++
+		} else if detail != nil {
+			inconclusive++
 		}
 		if got, gotErrs := Canon(out.Data), fmt.Sprint(errMultiset(out.Err)); got != base || gotErrs != baseErrs {
 			res.Fails = append(res.Fails, Failure{Channel: "L0.schedule", Classifier: "unclassified",
@@ -188,7 +190,7 @@ func (c05) Run(c *Ctx, i int) CaseResult {
 			return res
 		}
 	}
-	res.Counters = map[string]int{"service_calls": ncalls, "schedules": nsched, "releases": released, "traces_accepted_by_machine": traced, "exec_model_" + xnote: 1}
+	res.Counters = map[string]int{"service_calls": ncalls, "schedules": nsched, "releases": released, "traces_accepted_by_machine": traced, "traces_inconclusive": inconclusive, "exec_model_" + xnote: 1}
 	res.Features = append(FeatList(insFeat), fmt.Sprintf("faults-%d", len(in.Faults)))
 	if i%23 == 0 {
 		res.Sample = map[string]interface{}{"query": in.Query, "faults": in.Faults, "calls": ncalls, "schedules": nsched, "releases": released}
